@@ -16,6 +16,8 @@ for d in seeded/*/; do
   props=$(cat $d/props.txt 2>/dev/null); [ -z "$props" ] && continue
   git -C $W apply $(realpath $d/patch.diff) 2>/dev/null || { echo "$n | - | PATCH DOES NOT APPLY" >> $out; continue; }
   for p in $(echo $props | tr , ' '); do
+    # SWEEP_PROPS (environment, optional): only these properties, e.g. "C07 C02"
+    if [ -n "$SWEEP_PROPS" ]; then case " $SWEEP_PROPS " in *" $p "*) ;; *) continue;; esac; fi
     VERIF_REPO=$W VERIF_EVIDENCE_SUFFIX=.sweep ./check.sh $p quick > /tmp/sweep_$$_$p.log 2>&1; rc=$?
     v=$(grep -c "^VIOLATION" /tmp/sweep_$$_$p.log)
     first=$(grep -m1 -B1 "^VIOLATION" /tmp/sweep_$$_$p.log | head -1 | cut -c1-170)
